@@ -168,7 +168,11 @@ void checkPassive(const RunData& rd, hz::RunResult* res) {
   size_t n = act.size(), m = exp.size();
   auto skippable = [&exp](size_t j) { return exp[j].either || exp[j].own || exp[j].ownAnswer; };
   auto matches = [&](size_t i, size_t j) {
-    if (exp[j].own || exp[j].ownAnswer) return false;
+    if (exp[j].own) return false;
+    // the acknowledge slot carried a symbol of ebusd: either it answered (then the report is md_answer, decided by C15), or
+    // a symbol it wrote for another purpose landed there (late byte of an aborted own exchange); then the telegram is
+    // ordinary received traffic for ebusd and an md_recv report of exactly that telegram is right as well
+    if (exp[j].ownAnswer) return exp[j].tg == act[i].tg;
     if (exp[j].tg.master.empty()) return true;  // wildcard
     return exp[j].tg == act[i].tg;
   };
